@@ -22,14 +22,14 @@ RULE = (
 )
 ASSUMPTIONS = [
     "the decision table is the one in the statement / class docstring; a label is required exactly when no entity_id is given",
-    "expressions from a 5-element alphabet; layouts L(5,3) / L(6,3)",
+    "expressions from a 7-element alphabet (incl. references to a repeat and a group); layouts L(5,3) / L(6,3)",
 ]
 BOUND = {
-    "quick": "save_to on loop / audit rows and on questions whose type contains the words group / repeat; second entities rows without a list name (4 shapes) and 5 omit_instanceID / instance_name / audit settings for all 16 combinations; 16 combinations x 5 expressions x 7 dataset names x 3 sheet shapes; L(5,3) x save_to subsets <=2 x 4 combinations; 7 save_to names x 5 placements",
+    "quick": "save_to on loop / audit rows and on questions whose type contains the words group / repeat; second entities rows without a list name (4 shapes) and 5 omit_instanceID / instance_name / audit settings for all 16 combinations; 16 combinations x 7 expressions (+ absent cells as empty strings) x 7 dataset names x 3 sheet shapes; L(5,3) x save_to subsets <=2 x 4 combinations; 7 save_to names x 5 placements",
     "thorough": "same table; L(6,3) x save_to subsets <=2 x 6 combinations",
 }
 
-EXPRS = ["'lit'", "${q}", "${qg}", "concat(${q}, 'x')", "${q} = ${qg}"]
+EXPRS = ["'lit'", "${q}", "${qg}", "concat(${q}, 'x')", "${q} = ${qg}", "count(${rp}) > 0", "concat(${g}, ${q})"]
 DATASETS = [("trees", True), ("__t", False), ("a.b", False), ("1t", False), ("t t", False), (None, False), ("_ok-1", True)]
 SAVETO = [("p", True), ("name", False), ("Label", False), ("__p", False), ("1p", False), ("p q", False), ("P_2", True), ("girth.cm", True), ("a-b", True)]
 COLS = ["entity_id", "create_if", "update_if", "label"]
@@ -56,6 +56,9 @@ def gen_table(tier):
                     if shape != "one" and (ds != "trees" or ei > 1):
                         continue
                     yield {"k": "table", "bits": list(bits), "expr": ei, "ds": ds, "shape": shape}
+                # absent cells given as empty strings (dict input from a table with blanks): the same decision
+                if ds == "trees" and ei <= 1:
+                    yield {"k": "table", "bits": list(bits), "expr": ei, "ds": ds, "shape": "one", "blanks": True}
         # a second row that is not a full declaration (no list name; before or after the real one): still two rows, still refused
         for shape in ("two-second-nolist", "two-first-nolist", "two-second-only-create_if", "two-first-only-entity_id"):
             yield {"k": "table", "bits": list(bits), "expr": 0, "ds": "trees", "shape": shape}
@@ -113,8 +116,14 @@ def entity_row(bits, expr, ds):
 def build(case):
     base = [{"type": "text", "name": "q", "label": "Q"},
             {"type": "begin group", "name": "g", "label": "G"}, {"type": "text", "name": "qg", "label": "QG"}, {"type": "end group"}]
+    if case["k"] == "table" and case["expr"] >= 5:
+        base += [{"type": "begin repeat", "name": "rp", "label": "RP"}, {"type": "text", "name": "qr", "label": "QR"}, {"type": "end repeat"}]
     if case["k"] == "table":
         row = entity_row(case["bits"], EXPRS[case["expr"]], case["ds"])
+        if case.get("blanks"):
+            for b_, col_ in zip(case["bits"], COLS):
+                if not b_:
+                    row[col_] = ""
         ent = [row]
         if case["shape"] == "two":
             ent = [row, dict(row, dataset="other")]
@@ -234,7 +243,7 @@ def check_entity(obs, xform, bits, expr, ds, viol):
         names = re.findall(r"\$\{(.*?)\}", src)
         for nm, raw in zip(names, subs):
             p = Path(raw)
-            want_path = ["data", "q"] if nm == "q" else ["data", "g", "qg"] if obs.resolves("/data/g/qg") else ["data", "qg"]
+            want_path = {"q": ["data", "q"], "rp": ["data", "rp"], "g": ["data", "g"]}.get(nm) or (["data", "g", "qg"] if obs.resolves("/data/g/qg") else ["data", "qg"])
             if not p.ok or p.resolve(["data", "meta", "entity"]) != want_path:
                 return False
         return True
